@@ -311,6 +311,6 @@ func genTimerange(c *Ctx) {
 		}
 		in := L(Sym("tr"), cfg.sx(), zoneSx(zname, loc, t0-40*86400, tEnd+40*86400),
 			L(Sym("grid"), Int64(t0), Int(trStep), Int(trCount)), ex, strides)
-		c.Emit(in, runTimerange(in))
+		c.Pending(in); c.Emit(in, runTimerange(in))
 	}
 }
